@@ -267,8 +267,9 @@ CLAIMED = {
              "written factor text parsed by model and implementation; on the implementation: written text read back and "
              "compared (metadata, tags, ids, comments, demands, values at 2 / 3 decimals), the saved files re-evaluated and "
              "compared with the original evaluation within the written precision, the same through cteepbd --oc / --of. "
-             "PARTIAL: the file-level round trip of components (line splitting, metadata lines, re-normalisation of the text "
-             "read back) is decided on the implementation only. Known findings: rounding can create one more automatic "
+             "C18_components_file: a whole components file written by Display (metadata, components, demands) is read as "
+             "exactly the records written, values at the written precision, which are then normalised again. PARTIAL: what "
+             "that second normalisation does to rounded values is decided on the implementation only. Known findings: rounding can create one more automatic "
              "completion; values near the printed precision.",
         design_ref="DESIGN.md §6 C18",
         note="Trusted: Coq kernel + vm_compute; the model's readers are tied to the code by the exact correspondence of C16.",
